@@ -6,6 +6,6 @@ EXPLANATION = ("Bounded: subset against a content oracle (rows identified by uni
                "re-join-by-union with non-identity node mappings (individuals, populations and individual parents of shared "
                "and new nodes) on seeded small collections. Proved: the integrity gate both operations call first (C02).")
 C_FUNCS = [("tables.c", "tsk_table_collection_check_integrity"), ("tables.c", "tsk_table_collection_add_and_remap_node")]
-BOUNDED = [{"name": "subset_union_content", "module": "standins.c14_subset_union", "timeout": 900}]
+BOUNDED = [{"name": "subset_union_content", "module": "standins.c14_subset_union", "timeout": 900, "asan": "thorough"}]
 UNVERIFIED = ["tsk_table_collection_subset, _union, _add_and_remap_node, tsk_check_subset_equality (bounded only)"]
 ASSUMPTIONS = []
